@@ -307,6 +307,19 @@ class Run:
             eff = cl.edit(*self.key(act['obj']), lambda b: b.setdefault('status', {}).update(foreign=act['v'])) is not None
         elif a == 'annotate':
             eff = cl.edit(*self.key(act['obj']), lambda b: b['metadata'].setdefault('annotations', {}).update({'example.com/note': str(act['v'])})) is not None
+        elif a == 'edit_field':
+            # any field by path; value None removes the key
+            def fn(b):
+                d = b
+                for key in act['path'][:-1]:
+                    if not isinstance(d.get(key), dict):
+                        d[key] = {}
+                    d = d[key]
+                if act['v'] is None:
+                    d.pop(act['path'][-1], None)
+                else:
+                    d[act['path'][-1]] = copy.deepcopy(act['v'])
+            eff = cl.edit(*self.key(act['obj']), fn) is not None
         elif a == 'annotate_raw':
             # any annotation, kopf's own included (somebody edits or damages what the operator persists): value None removes it
             def fn(b):
